@@ -17,7 +17,7 @@ import vlib
 from checks import framelib as fl
 
 
-def make_cases(ctx, d):
+def make_cases(ctx, d, zero_hc):
     q = ctx.tier == "quick"
     rnd = random.Random(ctx.seed * 31 + 9)
     cases = []
@@ -61,6 +61,21 @@ def make_cases(ctx, d):
                 add(o, inp, [{"op": "write", "n": n}, {"op": "close"}])
             else:
                 add(o, inp, [{"op": "readfrom", "n": 0}, {"op": "close"}])
+    # consecutive blocks stored differently (raw, compressed, raw, ...), sequential and concurrent
+    for o in vecs[:10 if q else 80]:
+        if o["legacy"]:
+            continue
+        B = fl.block_of(o)
+        if B > 262144 and q:
+            continue
+        for seed in (0, 1, 2):
+            inp = {"family": "blockmix", "len": 3 * B + 11, "seed": seed, "p1": B}
+            add(o, inp, [{"op": "write", "n": inp["len"]}, {"op": "close"}] if seed else [{"op": "readfrom", "n": 0}, {"op": "close"}])
+    # content sizes crafted by TLC so that the header-checksum byte is 0x00
+    for z in zero_hc:
+        o = {"code": z["code"], "bcs": z["bcs"], "ccs": z["ccs"], "level": 0, "conc": 1 + z["code"] % 2, "legacy": False,
+             "handler": False, "size": z["size"]}
+        add(o, fl.input_for(rnd, 33, "text"), [{"op": "write", "n": 33}, {"op": "close"}])
     # legacy frame with an incompressible 8 MiB block (stored form is larger than the block)
     add({"code": 7, "bcs": False, "ccs": False, "level": 0, "conc": 1, "legacy": True, "handler": False},
         fl.input_for(rnd, fl.LEGACY_BLOCK + 5, "random"), [{"op": "write", "n": fl.LEGACY_BLOCK + 5}, {"op": "close"}])
@@ -92,7 +107,10 @@ def run(ctx):
     d = vlib.scratch("c09")
     ctx.mc("MC_LZ4Frame", timeout=900)
     ctx.mc("MC_Writer", timeout=900)
-    cases = make_cases(ctx, d)
+    z = ctx.mc("Gen_HeaderZero", want_cases=True, timeout=600)
+    if len(z.cases) != 16:
+        raise vlib.MachineryFault("Gen_HeaderZero produced %d rows" % len(z.cases))
+    cases = make_cases(ctx, d, sorted(z.cases, key=lambda r: json.dumps(r, sort_keys=True)))
     by_id = {c["id"]: c for c in cases}
     recs, faults = fl.shard_run(b, "frame-write", cases, d, "w")
     if faults:
